@@ -222,6 +222,8 @@ impl<M: ConvexCellMarker> Iterator for ConvexCellDecomposition<'_, M> {
     type Item = ConvexCellTet;
 
     fn next(&mut self) -> Option<Self::Item> {
+        #[cfg(meshless_voro_verif)]
+        crate::verif::sched_point(crate::verif::SITE_DECOMPOSE_NEXT);
         match self.inner {
             Decomposition::WithFaces(ref mut decomposition) => decomposition.next(),
             Decomposition::WithoutFaces(ref mut decomposition) => {
@@ -330,6 +332,8 @@ impl ConvexCell<WithoutFaces> {
         // now loop over the nearest neighbours and clip this cell until the safety
         // radius is reached
         for (idx, shift) in nearest_neighbours {
+            #[cfg(meshless_voro_verif)]
+            crate::verif::sched_point(crate::verif::SITE_BUILD_NEIGHBOUR_LOOP);
             let generator = generators[idx];
             let ngb_loc;
             if let Some(shift) = shift {
@@ -468,6 +472,8 @@ impl ConvexCell<WithoutFaces> {
         // Collect the vertices on all clipping planes (if any)
         let mut face_vertex_connections = vec![vec![]; self.clipping_planes.len()];
         for (idx, vertex) in self.vertices.iter().enumerate() {
+            #[cfg(meshless_voro_verif)]
+            crate::verif::sched_point(crate::verif::SITE_WITH_FACES_VERTEX_LOOP);
             face_vertex_connections[vertex.dual[0]].push(idx);
             face_vertex_connections[vertex.dual[1]].push(idx);
             face_vertex_connections[vertex.dual[2]].push(idx);
@@ -520,6 +526,8 @@ impl ConvexCell<WithoutFaces> {
 
         let mut cur_idx = 1;
         while cur_idx < vert_idx.len() - 1 {
+            #[cfg(meshless_voro_verif)]
+            crate::verif::sched_point(crate::verif::SITE_WITH_FACES_SORT_LOOP);
             let mut test_idx = cur_idx;
             // loop through the tail of the list and swap the next vertex to cur_idx
             while test_idx < vert_idx.len() {
